@@ -291,6 +291,11 @@ fn run_session(st: &mut St, ops: &[&String]) -> Result<(), String> {
           let r = catch_unwind(AssertUnwindSafe(|| session.require(&Tsk(x))));
           dead = finish(&mut out, n0, r.map(|o| format!("out {:?}", o)).map_err(|p| panic_kind(&p)));
         }
+        ["retry"] => {
+          // the caller caught the panic and goes on using the SAME session object
+          out.push("op retry".into());
+          dead = false;
+        }
         ["bu", rs @ ..] => {
           let rs: Option<Vec<u32>> = rs.iter().map(|x| x.parse().ok()).collect();
           let Some(rs) = rs else { bad = Some(l.to_string()); break; };
